@@ -1824,7 +1824,10 @@ def phasefield_rule(ctx, rid="R17.E1"):
                 prev = saved[k - 1]
                 # (the history field exists for the History solver only: the damage-based solvers drive the damage with the
                 # instantaneous energy and enforce irreversibility on the damage itself)
-                for e, (a, b) in enumerate(zip(prev["H"], rec["H"]) if solver == "History" else ()):
+                # (... and it is compared for one pass per step only: with several passes the value read through Result is a TRIAL
+                # evaluation at the final displacement of the step, which the committed field holds only to the convergence
+                # tolerance of the staggered loop - an unconverged step, cut at 6 passes here, shows a drop that is not one)
+                for e, (a, b) in enumerate(zip(prev["H"], rec["H"]) if solver == "History" and tolConv == 1 else ()):
                     if b < a - MARGIN:
                         return f"{tag}: saved step {k} (prescribed displacement {ux} after {prev['ux']}): the driving energy of element {e} falls from {float(a):.6g} to {float(b):.6g} between two saved steps (the history field decreased: the damage it drives heals)"
                 if solver != "History":
